@@ -5,6 +5,7 @@ CONSTANTS
   DbIds = {"com", "x.com", "w.y.com", "a.x.com", "F2", "io"}
   EmitOn = FALSE
   ImplOnly = FALSE
+  ImplNegAgain = FALSE
 VIEW GraphView
 INVARIANTS TypeOK CacheTransparent RefAdmissible
 PROPERTIES StepProps
